@@ -86,7 +86,19 @@ def run(ctx):
                 check_linear(ctx, "R10.7", b, st, lambda cs, i: cs is None or cs.name in CONSUMERS + ("into_iter", "extend") or
                              any(sb.crate == AG and any(x.name in ("into_iter", "next", "for_each") for x in sb.calls()) for sb in local_callee_bodies(F, cs)), what="value-part")
             continue
-        check_linear(ctx, "R10.7", b, 2, is_consumer, what="value")
+        # a by-value private accessor that hands out (a part of) the value (`value.into_drained()`) passes the obligation on to its result
+        def _accessor(cs):
+            from rules.c15 import is_self_accessor
+            return cs is not None and len(cs.args) == 1 and not cs.dest.get("p") and bool(local_callee_bodies(F, cs)) and \
+                all(hb.crate == AG and not hb.locals[1]["ty"].startswith("&") and is_self_accessor(hb) for hb in local_callee_bodies(F, cs))
+        part_consumer = lambda cs, i: cs is None or cs.name in CONSUMERS + ("into_iter", "extend") or \
+            any(sb.crate == AG and any(x.name in ("into_iter", "next", "for_each") for x in sb.calls()) for sb in local_callee_bodies(F, cs))
+        lin = check_linear(ctx, "R10.7", b, 2, lambda cs, i: is_consumer(cs, i) or _accessor(cs), what="value")
+        if lin is not None:
+            for bb_, (t_, i_) in lin.consumers.items():
+                cs_ = CallSite(b, bb_, t_)
+                if not is_consumer(cs_, i_) and _accessor(cs_):
+                    check_linear(ctx, "R10.7", b, cs_.dest["l"], part_consumer, what="value-part")
     # ------------------------------------------------------------------ R10.9 what each value strategy does with the value (table confirmed by reading value.rs / histogram.rs)
     # strategy type suffix -> (operation, callee-name) ; "store-some" = `*accum = Some(value)` on every path
     TABLE = {"value::Sum": ("call", "add_assign"), "value::KeepLast": ("store-some", None), "value::Flatten": ("call", "merge"),
